@@ -1,5 +1,5 @@
 From Coq Require Extraction ExtrOcamlBasic.
-From OxiVerif Require Import Base.Conv DD.Table DD.TableExtra DD.Sem Num.I64 DD.FamSpec DD.ZbddOps DD.ZbddVars Mgr.SortOrder Mgr.LevelSwap Mgr.LevelSwapC Mgr.LevelSwapZ Mgr.LevelSwapT DD.BuildCanon Mgr.Conc Mgr.ConcGc Mgr.Terminals DD.Tdd DD.ApplyTdd DD.TddAudit Mgr.TddHist DD.SatCount DD.SatCountF64.
+From OxiVerif Require Import Base.Conv DD.Table DD.TableExtra DD.Sem Num.I64 DD.FamSpec DD.ZbddOps DD.ZbddVars Mgr.SortOrder Mgr.LevelSwap Mgr.LevelSwapC Mgr.LevelSwapZ Mgr.LevelSwapT DD.BuildCanon Mgr.Conc Mgr.ConcGc Mgr.Terminals DD.Tdd DD.ApplyTdd DD.TddAudit Mgr.TddHist DD.SatCount DD.SatCountF64 DD.IsoCheck.
 Extraction Language OCaml.
 Extraction "model.ml" conv_anchor
   Table.sem_edge Table.wf_b TableExtra.terms_kind_b TableExtra.wf_full_b Table.perm_inverse_b Table.node_ok_b Table.unique_nodes_b
@@ -23,4 +23,5 @@ Extraction "model.ml" conv_anchor
   ApplyTdd.td_ok_b TddAudit.t3_not TddAudit.t3_bin TddAudit.t3_ite TddAudit.td_vtable TddAudit.td_wf3_b TddAudit.td_rc_b TddAudit.td_audit_b
   TddHist.tddh_const TddHist.tddh_var TddHist.tddh_not TddHist.tddh_bin TddHist.tddh_ite TddHist.tddh_cof TddHist.tddh_clone TddHist.tddh_drop TddHist.tddh_gc TddHist.tddh_addvars
   SatCountF64.sat_f64_bits SatCountF64.sat_f64_cached_bits SatCountF64.f64_count_bits
+  IsoCheck.iso_snap_b IsoCheck.iso_core IsoCheck.iso_with IsoCheck.build_idx IsoCheck.hdr_eqb IsoCheck.rmap_find
   Table.mkSnap Table.mkNode Table.mkEdge Table.nlevels Table.edge_eqb.
